@@ -85,6 +85,33 @@ def fxk (ot : OtFun (BitVec 128)) (r s : BLabel) (b : Nat) : FxkRun :=
   let res := ot [w] (recvFlags b)
   { wire := w, got := recvLabel res, r := r, xb := fxkRecvOut res }
 
+/-! ### Several gadget calls over one OT instance
+
+`bmr` keeps one `otSender` / `otReceiver` per peer and runs every `FxSend` /
+`FxkSend` of a session over it (bmr/player.go, bmr/peer.go).  The gadget
+functions keep no state of their own; the OT is a function in the model
+(`OtSpec` is per call), so a history of gadget calls is the list of the single
+runs. -/
+
+inductive GCall where
+  /-- `FxSend(oti, a)` ‖ `FxReceive(oti, b)` with the label `rl` drawn by `NewLabel` -/
+  | fx (rl : BLabel) (a b : Nat)
+  /-- `FxkSend(oti, s)` ‖ `FxkReceive(oti, b)` with the label `r` drawn by `NewLabel` -/
+  | fxk (r s : BLabel) (b : Nat)
+  deriving Repr, DecidableEq
+
+inductive GOut where
+  | fx (o : FxRun)
+  | fxk (o : FxkRun)
+  deriving Repr, DecidableEq
+
+def runGadget (ot : OtFun (BitVec 128)) : GCall → GOut
+  | .fx rl a b => .fx (fx ot rl a b)
+  | .fxk r s b => .fxk (fxk ot r s b)
+
+/-- A history of gadget calls over one OT instance. -/
+def runGadgets (ot : OtFun (BitVec 128)) (cs : List GCall) : List GOut := cs.map (runGadget ot)
+
 /-- The ideal OT as a function (satisfies `OtSpec`; used by the driver). -/
 def idealOt : OtFun (BitVec 128) := fun ws fl => List.zipWith (fun w b => w.labelFor b) ws fl
 
